@@ -432,7 +432,9 @@ class Wikicode(StringMixIn):
                     context.insert(index.start, value)
                 else:
                     obj = str(obj)
-                    self._slice_replace(context, index, obj, str(value) + obj)
+                    self._slice_replace(
+                        context, index, obj, str(parse_anything(value)) + obj
+                    )
 
     def insert_after(self, obj, value, recursive=True):
         """Insert *value* immediately after *obj*.
@@ -455,7 +457,9 @@ class Wikicode(StringMixIn):
                     context.insert(index.stop, value)
                 else:
                     obj = str(obj)
-                    self._slice_replace(context, index, obj, obj + str(value))
+                    self._slice_replace(
+                        context, index, obj, obj + str(parse_anything(value))
+                    )
 
     def replace(self, obj, value, recursive=True):
         """Replace *obj* with *value*.
@@ -481,7 +485,9 @@ class Wikicode(StringMixIn):
                         context.nodes.pop(index.start)
                     context.insert(index.start, value)
                 else:
-                    self._slice_replace(context, index, str(obj), str(value))
+                    self._slice_replace(
+                        context, index, str(obj), str(parse_anything(value))
+                    )
 
     def append(self, value):
         """Insert *value* at the end of the list of nodes.
